@@ -15,48 +15,59 @@ structure DetOps (α : Type) extends FieldOps α where
 
 variable {α : Type}
 
-/-- The main loop of SignOfDet2x2 (all entries strictly positive, x1 ≤ x2, y1 ≤ y2). -/
+/-! The main loop of SignOfDet2x2 (entries strictly positive), written as its three stages: reduce
+row 2 by row 1 (`detStep`), then row 1 by row 2 (`detHalfB`), then the zero tests before the next
+iteration (`detHalfC`); `rec` is the next iteration.  Each early `return` of the Go loop is one
+branch here, in the same order. -/
+
+def detHalfC (F : DetOps α) (rec : α → α → α → α → Int → Int) (x1 y1 x2 y2 : α) (sign : Int) : Int :=
+  if F.isZero y1 then (if F.isZero x1 then 0 else sign)
+  else if F.isZero x1 then -sign
+  else rec x1 y1 x2 y2 sign
+
+def detHalfB (F : DetOps α) (rec : α → α → α → α → Int → Int) (x1 y1 x2 y2 : α) (sign : Int) : Int :=
+  if F.isZero y2 then (if F.isZero x2 then 0 else -sign)
+  else if F.isZero x2 then sign
+  else
+    let k := F.floor (F.div x1 x2)
+    let x1 := F.sub x1 (F.mul k x2)
+    let y1 := F.sub y1 (F.mul k y2)
+    if F.lt y1 F.zero then sign
+    else if F.lt y2 y1 then -sign
+    else if F.lt (F.add x1 x1) x2 then
+      (if F.lt y2 (F.add y1 y1) then -sign else detHalfC F rec x1 y1 x2 y2 sign)
+    else
+      (if F.lt (F.add y1 y1) y2 then sign else detHalfC F rec (F.sub x2 x1) (F.sub y2 y1) x2 y2 (-sign))
+
+def detStep (F : DetOps α) (rec : α → α → α → α → Int → Int) (x1 y1 x2 y2 : α) (sign : Int) : Int :=
+  let k := F.floor (F.div x2 x1)
+  let x2 := F.sub x2 (F.mul k x1)
+  let y2 := F.sub y2 (F.mul k y1)
+  if F.lt y2 F.zero then -sign
+  else if F.lt y1 y2 then sign
+  else if F.lt (F.add x2 x2) x1 then
+    (if F.lt y1 (F.add y2 y2) then sign else detHalfB F rec x1 y1 x2 y2 sign)
+  else
+    (if F.lt (F.add y2 y2) y1 then -sign else detHalfB F rec x1 y1 (F.sub x1 x2) (F.sub y1 y2) (-sign))
+
 def detLoop (F : DetOps α) : Nat → α → α → α → α → Int → Int
   | 0, _, _, _, _, _ => 0     -- fuel exhausted (not reached: the loop is a Euclidean descent)
-  | fuel + 1, x1, y1, x2, y2, sign =>
-    let k := F.floor (F.div x2 x1)
-    let x2 := F.sub x2 (F.mul k x1)
-    let y2 := F.sub y2 (F.mul k y1)
-    if F.lt y2 F.zero then -sign
-    else if F.lt y1 y2 then sign
-    else
-      -- finding R'
-      let r : Option (α × α × Int) :=
-        if F.lt (F.add x2 x2) x1 then
-          (if F.lt y1 (F.add y2 y2) then none else some (x2, y2, sign))
-        else
-          (if F.lt (F.add y2 y2) y1 then none else some (F.sub x1 x2, F.sub y1 y2, -sign))
-      match r with
-      | none => if F.lt (F.add x2 x2) x1 then sign else -sign
-      | some (x2, y2, sign) =>
-        if F.isZero y2 then (if F.isZero x2 then 0 else -sign)
-        else if F.isZero x2 then sign
-        else
-          -- exchange 1 and 2 role
-          let k := F.floor (F.div x1 x2)
-          let x1 := F.sub x1 (F.mul k x2)
-          let y1 := F.sub y1 (F.mul k y2)
-          if F.lt y1 F.zero then sign
-          else if F.lt y2 y1 then -sign
-          else
-            let r : Option (α × α × Int) :=
-              if F.lt (F.add x1 x1) x2 then
-                (if F.lt y2 (F.add y1 y1) then none else some (x1, y1, sign))
-              else
-                (if F.lt (F.add y1 y1) y2 then none else some (F.sub x2 x1, F.sub y2 y1, -sign))
-            match r with
-            | none => if F.lt (F.add x1 x1) x2 then -sign else sign
-            | some (x1, y1, sign) =>
-              if F.isZero y1 then (if F.isZero x1 then 0 else sign)
-              else if F.isZero x1 then -sign
-              else detLoop F fuel x1 y1 x2 y2 sign
+  | fuel + 1, x1, y1, x2, y2, sign => detStep F (detLoop F fuel) x1 y1 x2 y2 sign
 
-/-- robustdeterminate.SignOfDet2x2 -/
+/-! robustdeterminate.SignOfDet2x2: zero entries, then the permutation that makes 0 < y1 ≤ y2, then the
+signs of the x entries (`detXStage`), then the loop. -/
+
+def detXStage (F : DetOps α) (fuel : Nat) (x1 y1 x2 y2 : α) (sign : Int) : Int :=
+  let pos (x : α) : Bool := F.lt F.zero x
+  if pos x1 then
+    if pos x2 then
+      (if F.lt x2 x1 then sign else detLoop F fuel x1 y1 x2 y2 sign)
+    else sign
+  else
+    if pos x2 then -sign
+    else if !(F.lt x1 x2) then detLoop F fuel (F.neg x1) y1 (F.neg x2) y2 (-sign)
+    else -sign
+
 def signOfDet2x2 (F : DetOps α) (fuel : Nat) (x1 y1 x2 y2 : α) : Int :=
   let pos (x : α) : Bool := F.lt F.zero x
   if F.isZero x1 || F.isZero y2 then
@@ -67,30 +78,20 @@ def signOfDet2x2 (F : DetOps α) (fuel : Nat) (x1 y1 x2 y2 : α) : Int :=
     if pos y2 then (if pos x1 then 1 else -1)
     else (if pos x1 then -1 else 1)
   else
-    -- making y coordinates positive and permuting the entries so that y2 is the biggest one
-    let (sign, x1, y1, x2, y2) : Int × α × α × α × α :=
-      if pos y1 then
-        if pos y2 then
-          (if F.lt y2 y1 then (-1, x2, y2, x1, y1) else (1, x1, y1, x2, y2))
-        else
-          (if !(F.lt (F.neg y2) y1) then (-1, x1, y1, F.neg x2, F.neg y2)
-           else (1, F.neg x2, F.neg y2, x1, y1))
+    if pos y1 then
+      if pos y2 then
+        (if F.lt y2 y1 then detXStage F fuel x2 y2 x1 y1 (-1) else detXStage F fuel x1 y1 x2 y2 1)
       else
-        if pos y2 then
-          (if !(F.lt y2 (F.neg y1)) then (-1, F.neg x1, F.neg y1, x2, y2)
-           else (1, x2, y2, F.neg x1, F.neg y1))
-        else
-          (if !(F.lt y1 y2) then (1, F.neg x1, F.neg y1, F.neg x2, F.neg y2)
-           else (-1, F.neg x2, F.neg y2, F.neg x1, F.neg y1))
-    -- making x coordinates positive; if |x2| < |x1| one can conclude
-    if pos x1 then
-      if pos x2 then
-        (if F.lt x2 x1 then sign else detLoop F fuel x1 y1 x2 y2 sign)
-      else sign
+        (if !(F.lt (F.neg y2) y1) then detXStage F fuel x1 y1 (F.neg x2) (F.neg y2) (-1)
+         else detXStage F fuel (F.neg x2) (F.neg y2) x1 y1 1)
     else
-      if pos x2 then -sign
-      else if !(F.lt x1 x2) then detLoop F fuel (F.neg x1) y1 (F.neg x2) y2 (-sign)
-      else -sign
+      if pos y2 then
+        (if !(F.lt y2 (F.neg y1)) then detXStage F fuel (F.neg x1) (F.neg y1) x2 y2 (-1)
+         else detXStage F fuel x2 y2 (F.neg x1) (F.neg y1) 1)
+      else
+        (if !(F.lt y1 y2) then detXStage F fuel (F.neg x1) (F.neg y1) (F.neg x2) (F.neg y2) 1
+         else detXStage F fuel (F.neg x2) (F.neg y2) (F.neg x1) (F.neg y1) (-1))
+
 
 /-- `a == b` (inputs carry no NaN). -/
 def feq (F : DetOps α) (a b : α) : Bool := !(F.lt a b) && !(F.lt b a)
